@@ -459,6 +459,13 @@ class AllocStateless : public Engine {
                 memset(&m2, 0, sizeof m2);
                 size_t c = varintPFORDecode(buf.data(), out.data(), &m2);
                 ok = c == n && memcmp(out.data(), vals.data(), n * 8) == 0;
+                // "fully correct": every reader of the format agrees, not only the bulk decoder
+                for (size_t i = 0; ok && i < n; i++) {
+                    if (varintPFORGetAt(buf.data(), (uint32_t)i, &m) != vals[i]) { // m: as read from the encoding
+                        ok = false;
+                        ctx_append(" reader=varintPFORGetAt");
+                    }
+                }
             }
         } else if (kind.rfind("adaptive.", 0) == 0) {
             std::vector<uint64_t> out(n + 1);
